@@ -73,26 +73,6 @@ Lemma add_component_atomic_nonquery fl pn name node_id spec_given nic sub_ids ca
   e <> EQuery -> sg s' = sg s.
 Proof. apply op_add_component_nonquery. Qed.
 
-(* the same observation for Topology.add_link *)
-Lemma op_add_link_nonquery fl name node_id ltype ifs pure :
-  nonquery_atomic (op_add_link fl name node_id ltype ifs pure).
-Proof.
-  unfold op_add_link, new_link.
-  apply nonquery_bind_nm; [nm|intro]. apply nonquery_bind_nm; [nm|intro]. apply nonquery_bind_nm; [nm|intro].
-  apply nonquery_bind_nm; [nm|intro id].
-  destruct ltype as [ty|]; [|apply nonquery_of_no_mut; nm].
-  destruct ifs as [[|i l]|]; try solve [apply nonquery_of_no_mut; nm].
-  apply nonquery_bind_nm; [nm|intro]. apply nonquery_bind_nm; [nm|intro].
-  apply nonquery_of_only.
-  apply only_query_bind; [apply only_query_add_node|intro].
-  apply only_query_bind; [|intro; apply only_query_ret].
-  apply only_query_for_each. intro. apply only_query_add_edge.
-Qed.
-
-Lemma add_link_atomic_nonquery fl name node_id ltype ifs pure s s' e :
-  op_add_link fl name node_id ltype ifs pure s = (s', Err e) -> e <> EQuery -> sg s' = sg s.
-Proof. apply op_add_link_nonquery. Qed.
-
 (* non-vacuity: an unknown model (CatalogException) and a duplicate component name (TopologyException) *)
 From Coq Require Import String.
 From FIM Require Import Proofs.T9Refuted.
